@@ -75,4 +75,7 @@ def witnesses():
     return {"C04-plaintext-nul": out.count("`c`") != 1,
             "C04-link-title-space-runs": '"T  w"' not in P.fmt('a [w](http://x.y/t "T  w") b\n', width=88),
             "C04-www-autolink-gains-scheme": "http://www.example.com" in P.fmt("see www.example.com now\n", width=88),
-            "C04-footnote-label-lowercased": "[^note]" in P.fmt("Text[^Note].\n\n[^Note]: The note.\n", width=88)}
+            "C04-footnote-label-lowercased": "[^note]" in P.fmt("Text[^Note].\n\n[^Note]: The note.\n", width=88),
+            "C04-info-string-space-runs": '```python title="x"' in P.fmt('```python   title="x"\ncode\n```\n', width=88),
+            "C04-image-reference-expanded": "![alt](/u)" in P.fmt("![alt][r]\n\n[r]: /u\n", width=88),
+            "C04-hard-break-inside-inline-html": "<span\\\n" in P.fmt('A <span  \nclass="x">b</span> c\n', width=88)}
